@@ -605,7 +605,7 @@ func callSSA(i *interpreter, caller *frame, callpos token.Pos, fn *ssa.Function,
 	if fn.Parent() == nil {
 		if d, ok := i.eng.dispatch[fn]; ok {
 			switch {
-			case d.stop:
+			case d.stop && i.path.prune:
 				i.path.reach["stop-at:"+d.name] = true
 				i.path.end("ok", "stop-at "+d.name)
 			case d.skip:
@@ -617,8 +617,13 @@ func callSSA(i *interpreter, caller *frame, callpos token.Pos, fn *ssa.Function,
 				return d.ext(fr, args)
 			case d.redirect != nil:
 				return callSSA(i, caller, callpos, d.redirect, args, nil)
-			case d.observe:
-				i.path.observeCall(d.name, args)
+			case d.observe || d.stop:
+				if !d.observe {
+					break
+				}
+				defer func(name string, args []value) {
+					i.path.observeCall(name, append(append([]value(nil), args...), fr.result))
+				}(d.name, args)
 			}
 		}
 		if fn.Blocks == nil {
